@@ -16,6 +16,10 @@ NA = {
 }
 PENDING = 'check not built yet in this round (planned, DESIGN.md section 6/10); nothing is claimed for it'
 
+# checks that exist but are being adapted (not claimed until green on the unchanged tree again)
+HOLD = {'C02': 'check exists (checks/c02.py) but its model of ref_collapse_edge_geometry / the edge smoother is being '
+               'updated to the two fix: commits 285dd96 and 36d5222 in /repo; not claimed until it is green again'}
+
 ALL = ['C%02d' % i for i in range(1, 21)]
 
 
@@ -27,6 +31,9 @@ def main():
         path = os.path.join(VERIF, 'checks', pid.lower() + '.py')
         if pid in NA:
             na.append({'property_id': pid, 'reason': NA[pid]})
+            continue
+        if pid in HOLD:
+            na.append({'property_id': pid, 'reason': HOLD[pid]})
             continue
         if not os.path.exists(path):
             na.append({'property_id': pid, 'reason': PENDING})
